@@ -54,6 +54,9 @@ def shuffle_chain(seed, order, count, start_k=0):
 def gen(ctx):
     rng = ctx.rng
     yield dict(kind="as1", hist=[[0, 1, 1, 0, 1]], order=[2, 0, 4], T=8, r=1, inner="probe:3:2:1:0", rand=0, seed=1)
+    for T in (70, 131, 260):
+        yield dict(kind="as1", hist=[[rng.randrange(3) for _ in range(5)]], order=rng.sample(range(5), 3), T=T, r=1,
+                   inner="probe:3:2:1:0", rand=int(T == 131), seed=rng.randrange(10 ** 6))
     for _ in range(ctx.n(350, 4000)):
         N = rng.randint(2, 9)
         cells = list(range(N))
